@@ -13,10 +13,10 @@ func main() {
 		fmt.Fprintln(os.Stderr, "usage: vinstr <repoDir> <outDir>")
 		os.Exit(2)
 	}
-	r, err := instr.Run(os.Args[1], os.Args[2])
+	r, err := instr.Run(os.Args[1], os.Args[2], os.Getenv("VINSTR_NOSHIM") == "")
 	if err != nil {
 		fmt.Fprintln(os.Stderr, "vinstr:", err)
 		os.Exit(1)
 	}
-	fmt.Printf("%d points in %d files\n", len(r.Points), len(r.Overlay))
+	fmt.Printf("%d points in %d files, %d sync imports redirected\n", len(r.Points), len(r.Overlay), r.Shimmed)
 }
